@@ -37,7 +37,7 @@ func supportedMapKey(keyTy types.Type) bool {
 func (ctx Ctx) mapType(e *ast.MapType) coq.MapType {
 	ty := ctx.typeOf(e).Underlying().(*types.Map)
 	if !supportedMapKey(ty.Key()) {
-		ctx.unsupported(e, "maps must be from uint64 or string (not %v)", e.Key)
+		ctx.unsupported(e, "maps must be from uint64 or string (not %v)", ty.Key())
 	}
 	return coq.MapType{Key: ctx.coqType(e.Key), Value: ctx.coqType(e.Value)}
 }
